@@ -57,5 +57,8 @@ func acquireWriterState() *writerState {
 
 func releaseWriterState(s *writerState) {
 	s.reset()
+	// a pooled state must not carry the release flags of its previous writer
+	s.releaseState = false
+	s.releaseWriter = false
 	writerStatePool.Put(s)
 }
